@@ -4,8 +4,8 @@
    implementation returned equals the DEFINITION (Model/Metrics.v, section
    "specification vocabulary"), computed independently of the code model.
    Depends on the model only (not on the proofs). *)
+From Coq Require Import Floats.SpecFloat QArith Qabs.
 From Coupe Require Import Lib.Prelude Lib.SFloat Lib.Report Lib.Csr Model.Metrics.
-From Coq Require Import Floats.SpecFloat.
 Open Scope Z_scope.
 
 (* one observed value: [OVal] the value; [OPanic]; [OHang]; [OBad]: an f64
@@ -74,6 +74,32 @@ Definition andl (l : list bool) : bool := forallb (fun b => b) l.
 
 Definition bits_eqb (a : N) (x : spec_float) : bool := (a =? f64_to_bits x)%N.
 
+(* exact rational value of a finite float *)
+Definition Q_of_float (x : spec_float) : option Q :=
+  match x with
+  | S754_zero _ => Some 0%Q
+  | S754_finite s m e =>
+    let mag := if (0 <=? e)%Z then inject_Z (Zpos m * 2 ^ e) else Qmake (Zpos m) (Z.to_pos (2 ^ (- e))) in
+    Some (if s then Qopp mag else mag)
+  | _ => None
+  end.
+
+(* the returned f64 is within 2^-50 * (|d| + 1) of the closed form
+   d = max_load * k / total - 1 (total > 0), resp. equals 0 when total = 0 *)
+Definition imbalance_close (k : nat) (loads : list Z) (bits : N) : bool :=
+  let total := sumZ loads in
+  match Q_of_float (f64_of_bits bits), loads with
+  | Some v, x :: r =>
+    if total =? 0 then Qeq_bool v 0
+    else if total <? 0 then true                     (* negative total weight: outside the closed form's domain *)
+    else
+      let d := (inject_Z (list_max_Z x r) * inject_Z (Z.of_nat k) / inject_Z total - 1)%Q in
+      Qle_bool (Qabs (v - d)) ((Qabs d + 1) * Qmake 1 (2 ^ 50))
+  | _, _ => false
+  end.
+Definition obs_close (k : nat) (loads : list Z) (o : obs N) : bool :=
+  match o with OAbsent => true | OVal b => imbalance_close k loads b | _ => false end.
+
 (* the matrix the harness built for the lattice is the lattice: right size,
    valid (strictly sorted rows, indices in range), weight 1 exactly on the
    adjacent pairs of positions *)
@@ -99,18 +125,29 @@ Definition eval16 (c : case16) : verdict :=
       obs_corr Z.eqb msl (go_csr_lam_f o); obs_corr Z.eqb ml (go_gen_lam_f o)] in
     let in_contract := wf_graphb g && Nat.leb n (length p) && Nat.eqb (length vw) n in
     let sym := symmetricb g in
+    (* the sparse-matrix path is in contract only on a valid sparse matrix: strictly
+       increasing indices in every row (the harness also feeds it rows in any order through
+       the unchecked constructor the C API uses -- a separate stream, model-checked only) *)
+    let valid_matrix := rows_sortedb true g in
     let prop :=
       if in_contract then
         let d := cut_lower g p in
         let l := lambda_def (S (max_part p)) g p vw in
         (if sym then d =? cut_pairs g p else true)
-        && andl [obs_is Z.eqb d (go_csr_cut o); obs_is Z.eqb d (go_gen_cut o);
-                 obs_is Z.eqb d (go_csr_cut_f o); obs_is Z.eqb d (go_gen_cut_f o);
+        && andl [obs_is Z.eqb d (go_gen_cut o); obs_is Z.eqb d (go_gen_cut_f o);
                  obs_is Z.eqb l (go_csr_lam o); obs_is Z.eqb l (go_gen_lam o);
                  obs_is Z.eqb l (go_csr_lam_f o); obs_is Z.eqb l (go_gen_lam_f o)]
+        && (if valid_matrix then obs_is Z.eqb d (go_csr_cut o) && obs_is Z.eqb d (go_csr_cut_f o) else true)
       else true in
     {| corr_ok := corr; prop_ok := prop;
-       cls := if in_contract then (if sym then 0 else 1) else 2 |}
+       cls := if in_contract then
+                (if valid_matrix then (if sym then 0 else 1)
+                 else match go_csr_cut o with
+                      | OAbsent => 7
+                      | OVal x => if x =? cut_lower g p then 8 else 9
+                      | _ => 8
+                      end)
+              else 2 |}
   | CGrid dims lat p vw o =>
     let n := grid_len dims in
     let gr := grid_rows dims in
@@ -149,6 +186,7 @@ Definition eval16 (c : case16) : verdict :=
         andl [obs_is zs_eqb d (lo_loads o); obs_is zs_eqb d (lo_loads_f o);
               obs_is Z.eqb dm (lo_max o); obs_is Z.eqb dm (lo_max_f o);
               obs_is bits_eqb (imbalance_f64 k d) (lo_imb o); obs_is bits_eqb (imbalance_f64 k d) (lo_imb_f o);
+              obs_close k d (lo_imb o); obs_close k d (lo_imb_f o);
               if Nat.eqb (length targets) k then
                 obs_is Z.eqb (max_excess d targets) (lo_target o)
               else true]
